@@ -2,11 +2,13 @@ package gen
 
 import (
 	"bytes"
+	"crypto/elliptic"
 	"crypto/rsa"
 	"fmt"
 	"math/big"
 
 	"github.com/cloudflare/circl/oprf"
+	patecdsa "github.com/cloudflare/pat-go/ecdsa"
 	"github.com/cloudflare/pat-go/tokens"
 	"github.com/cloudflare/pat-go/tokens/type1"
 	"github.com/cloudflare/pat-go/tokens/type2"
@@ -23,6 +25,7 @@ type Session struct {
 	Nonces    [][]byte
 	KeyID     []byte
 	Mode      string // "random" or "withblind"
+	ArgError  error  // request creation wrote to one of its byte arguments
 
 	OKey *oprf.PrivateKey // types 1, 5
 	RKey *rsa.PrivateKey  // types 2, 3
@@ -125,6 +128,17 @@ func OriginName() *rapid.Generator[string] {
 		} else if n > 2 && rapid.Bool().Draw(t, "innerNUL") {
 			b[n/2] = 0
 		}
+		// names that look like they want normalising: trailing dot, upper case, surrounding space
+		switch rapid.IntRange(0, 11).Draw(t, "decoration") {
+		case 0:
+			b[n-1] = '.'
+		case 1:
+			b[0] = 'A'
+		case 2:
+			b[n-1] = ' '
+		case 3:
+			b[0] = ' '
+		}
 		return string(b)
 	})
 }
@@ -132,6 +146,14 @@ func OriginName() *rapid.Generator[string] {
 // NewSession draws keys, challenge, nonces and client randomness and creates
 // the client request state. rand.Reader must already be the case's DRBG.
 func NewSession(t *rapid.T, typ uint16, o SessionOpts) (*Session, error) {
+	s, err := newSession(t, typ, o)
+	if err == nil && s != nil && s.ArgError != nil {
+		return nil, s.ArgError
+	}
+	return s, err
+}
+
+func newSession(t *rapid.T, typ uint16, o SessionOpts) (*Session, error) {
 	s := &Session{Type: typ}
 	cl := o.Clients
 	if cl == nil {
@@ -158,32 +180,31 @@ func NewSession(t *rapid.T, typ uint16, o SessionOpts) (*Session, error) {
 	for i := 0; i < nTok; i++ {
 		s.Nonces = append(s.Nonces, Bytes32().Draw(t, "nonce"))
 	}
-	// The library gets private copies of every byte argument. In half the cases the caller "reuses its
-	// buffers": the copies are overwritten as soon as the request has been created - a request state must not
-	// depend on memory the caller still owns.
-	var args [][]byte
+	// Argument buffers. The library never gets the harness's own slices: every byte argument of request creation
+	// is carved out of ONE arena, each slice's capacity reaching to the end of the arena (so the arguments lie in
+	// one another's spare capacity, as when a caller cuts them from one record). The arenas are taken from a
+	// process-wide pool keyed by size, so consecutive requests find their arguments at the same addresses as the
+	// previous request's (a caller reusing its buffers). After creation the arena must be unchanged (creation does
+	// not write to its arguments); in half the cases it is then overwritten - a request state must not depend on
+	// memory the caller still owns.
+	var pendingArgs [][]byte
 	arg := func(b []byte) []byte {
-		c := append([]byte{}, b...)
-		args = append(args, c)
-		return c
+		pendingArgs = append(pendingArgs, b)
+		return nil
 	}
-	argList := func(l [][]byte) [][]byte {
-		out := make([][]byte, len(l))
-		for i := range l {
-			out[i] = arg(l[i])
-		}
-		return out
-	}
+	_ = arg
+	ar := &arena{}
 	reuse := rapid.Bool().Draw(t, "callerReusesArgumentBuffers")
+	var argErr error
 	defer func() {
+		if err := ar.changed(); err != nil && argErr == nil {
+			argErr = err
+		}
 		if reuse {
 			s.Mode += "+args-overwritten"
-			for _, a := range args {
-				for i := range a {
-					a[i] = 0xA5
-				}
-			}
+			ar.overwrite()
 		}
+		s.ArgError = argErr
 	}()
 	switch typ {
 	case 1:
@@ -196,9 +217,11 @@ func NewSession(t *rapid.T, typ uint16, o SessionOpts) (*Session, error) {
 		var err error
 		if withBlind {
 			s.Mode = "withblind"
-			s.State1, err = cl.C1.CreateTokenRequestWithBlind(arg(s.Challenge), arg(s.Nonces[0]), arg(s.KeyID), issuer.TokenKey(), arg(P384Scalar().Draw(t, "blind")))
+			a := ar.layout(s.Challenge, s.Nonces[0], s.KeyID, P384Scalar().Draw(t, "blind"))
+			s.State1, err = cl.C1.CreateTokenRequestWithBlind(a[0], a[1], a[2], issuer.TokenKey(), a[3])
 		} else {
-			s.State1, err = cl.C1.CreateTokenRequest(arg(s.Challenge), arg(s.Nonces[0]), arg(s.KeyID), issuer.TokenKey())
+			a := ar.layout(s.Nonces[0], s.KeyID, s.Challenge)
+			s.State1, err = cl.C1.CreateTokenRequest(a[2], a[0], a[1], issuer.TokenKey())
 		}
 		if err != nil {
 			return nil, fmt.Errorf("CreateTokenRequest: %v", err)
@@ -232,9 +255,11 @@ func NewSession(t *rapid.T, typ uint16, o SessionOpts) (*Session, error) {
 			for i := range blinds {
 				blinds[i] = RistrettoScalar().Draw(t, "blind")
 			}
-			s.State5, err = cl.C5.CreateTokenRequestWithBlinds(arg(s.Challenge), argList(s.Nonces), arg(s.KeyID), issuer.TokenKey(), argList(blinds))
+			a := ar.layout(append(append([][]byte{s.Challenge, s.KeyID}, s.Nonces...), blinds...)...)
+			s.State5, err = cl.C5.CreateTokenRequestWithBlinds(a[0], a[2:2+nTok], a[1], issuer.TokenKey(), a[2+nTok:])
 		} else {
-			s.State5, err = cl.C5.CreateTokenRequest(arg(s.Challenge), argList(s.Nonces), arg(s.KeyID), issuer.TokenKey())
+			a := ar.layout(append(append([][]byte{}, s.Nonces...), s.KeyID, s.Challenge)...)
+			s.State5, err = cl.C5.CreateTokenRequest(a[nTok+1], a[:nTok], a[nTok], issuer.TokenKey())
 		}
 		if err != nil {
 			return nil, fmt.Errorf("CreateTokenRequest: %v", err)
@@ -261,9 +286,11 @@ func NewSession(t *rapid.T, typ uint16, o SessionOpts) (*Session, error) {
 			s.Mode = "withblind"
 			blind := RSABlind(t, s.RKey.N)
 			salt := rapid.SliceOfN(rapid.Byte(), 48, 48).Draw(t, "salt")
-			s.State2, err = cl.C2.CreateTokenRequestWithBlind(arg(s.Challenge), arg(s.Nonces[0]), arg(s.KeyID), issuer.TokenKey(), arg(blind), arg(salt))
+			a := ar.layout(s.Challenge, s.Nonces[0], s.KeyID, blind, salt)
+			s.State2, err = cl.C2.CreateTokenRequestWithBlind(a[0], a[1], a[2], issuer.TokenKey(), a[3], a[4])
 		} else {
-			s.State2, err = cl.C2.CreateTokenRequest(arg(s.Challenge), arg(s.Nonces[0]), arg(s.KeyID), issuer.TokenKey())
+			a := ar.layout(s.Nonces[0], s.KeyID, s.Challenge)
+			s.State2, err = cl.C2.CreateTokenRequest(a[2], a[0], a[1], issuer.TokenKey())
 		}
 		if err != nil {
 			return nil, fmt.Errorf("CreateTokenRequest: %v", err)
@@ -302,7 +329,16 @@ func NewSession(t *rapid.T, typ uint16, o SessionOpts) (*Session, error) {
 			s.Origin = *o.Origin
 		} else {
 			s.Origin = OriginName().Draw(t, "origin")
-			if err := s.Issuer3.AddOrigin(s.Origin); err != nil {
+			if rapid.Bool().Draw(t, "registerWithIndexKey") {
+				// the other registration entry point, with an index key chosen by the operator
+				ik, err := patecdsa.CreateKey(elliptic.P384(), P384KeyBytes().Draw(t, "indexKey"))
+				if err != nil {
+					return nil, fmt.Errorf("CreateKey: %v", err)
+				}
+				if err := s.Issuer3.AddOriginWithIndexKey(s.Origin, ik); err != nil {
+					return nil, fmt.Errorf("AddOriginWithIndexKey: %v", err)
+				}
+			} else if err := s.Issuer3.AddOrigin(s.Origin); err != nil {
 				return nil, fmt.Errorf("AddOrigin: %v", err)
 			}
 		}
@@ -319,7 +355,8 @@ func NewSession(t *rapid.T, typ uint16, o SessionOpts) (*Session, error) {
 			cl.C3[string(s.ClientSecret)] = client
 		}
 		var err error
-		s.State3, err = client.CreateTokenRequest(arg(s.Challenge), arg(s.Nonces[0]), arg(s.BlindKey), arg(s.KeyID), s.Issuer3.TokenKey(), s.Origin, s.Issuer3.NameKey())
+		a := ar.layout(s.Nonces[0], s.KeyID, s.BlindKey, s.Challenge)
+		s.State3, err = client.CreateTokenRequest(a[3], a[0], a[2], a[1], s.Issuer3.TokenKey(), s.Origin, s.Issuer3.NameKey())
 		if err != nil {
 			return nil, fmt.Errorf("CreateTokenRequest: %v", err)
 		}
@@ -383,3 +420,54 @@ func (b Batch2) Evaluate(r tokens.TokenRequest) ([]byte, error) {
 }
 func (b Batch2) TokenKeyID() []byte { return b.I.TokenKeyID() }
 func (b Batch2) Type() uint16       { return type2.BasicPublicTokenType }
+
+// arena lays byte arguments out in one buffer taken from a process-wide pool (same size => same memory as last time).
+type arena struct {
+	buf  []byte
+	orig []byte
+}
+
+var arenaPool = map[int][]byte{}
+
+// layout copies the values back to back into the pooled buffer of that total size and returns the slices.
+func (a *arena) layout(vals ...[]byte) [][]byte {
+	total := 16
+	for _, v := range vals {
+		total += len(v)
+	}
+	buf, ok := arenaPool[total]
+	if !ok {
+		buf = make([]byte, total)
+		arenaPool[total] = buf
+	}
+	a.buf = buf
+	off := 0
+	out := make([][]byte, len(vals))
+	for i, v := range vals {
+		copy(buf[off:], v)
+		out[i] = buf[off : off+len(v)] // capacity runs to the end of the arena
+		off += len(v)
+	}
+	for i := off; i < total; i++ {
+		buf[i] = 0xC3 // canary behind the last argument
+	}
+	a.orig = append(a.orig[:0], buf...)
+	return out
+}
+
+func (a *arena) changed() error {
+	if a.buf != nil && !bytes.Equal(a.buf, a.orig) {
+		for i := range a.buf {
+			if a.buf[i] != a.orig[i] {
+				return fmt.Errorf("request creation wrote to caller memory: byte %d of the argument arena changed from %02x to %02x (arguments laid out back to back, each with the following ones in its spare capacity)", i, a.orig[i], a.buf[i])
+			}
+		}
+	}
+	return nil
+}
+
+func (a *arena) overwrite() {
+	for i := range a.buf {
+		a.buf[i] = 0xA5
+	}
+}
